@@ -6,7 +6,7 @@ import math
 
 from rv.core import ctx as _ctx
 from rv.core import instrument
-from rv.core.tolerances import ROUND_CAP_SHORTFALL
+from rv.core.tolerances import GEOS_BUFFER_SIMPLIFY, ROUND_CAP_SHORTFALL
 from rv.gen import geoms
 from rv.props import c03
 
@@ -29,16 +29,18 @@ def _shp(g):
 
 
 def _touches_edge_on_zero_axis(spec, tb, fb):
-    """Mechanism predicate of the open finding: a 0/1-D geometry lying on the domain
-    edge of an axis whose buffer is zero (the 1e9 scaling trick + clip_by_rect)."""
+    """Mechanism predicate of the open finding: a 0/1-D geometry lying on the domain edge of an
+    axis that is scaled extremely (zero buffer => factor 1e9, or coordinate/buffer >= 1e9): after
+    clip_by_rect GEOS returns a GeometryCollection or a sliver that lost part of its outline."""
     if spec["type"] not in ("Point", "MultiPoint", "LineString", "MultiLineString"):
         return False
     pts = geoms.flat_points(spec)
-    if tb == 0 and fb > 0 and any(p[0] == 0 for p in pts):
+    b = geoms.ref_bounds(spec)
+    t_deg = tb == 0 or b[2] / tb >= 1e9
+    f_deg = fb == 0 or b[3] / fb >= 1e9
+    if t_deg and any(p[0] == 0 for p in pts):
         return True
-    if fb == 0 and tb > 0 and any(p[1] == 0 or p[1] == MAXF for p in pts):
-        return True
-    if tb == 0 and fb == 0 and any(p[0] == 0 or p[1] == 0 or p[1] == MAXF for p in pts):
+    if f_deg and any(p[1] == 0 or p[1] == MAXF for p in pts):
         return True
     return False
 
@@ -137,7 +139,7 @@ def _post_buffer(geometry, time_buffer, freq_buffer, kwargs, result):
         return True
     # bounds extend by at least the buffers (minus the 32-gon cap band), clipped to the domain
     b1 = geoms.ref_bounds(rs)
-    k = 1 - ROUND_CAP_SHORTFALL
+    k = 1 - ROUND_CAP_SHORTFALL - GEOS_BUFFER_SIMPLIFY
     need = (max(b0[0] - k * tb, 0.0), max(b0[1] - k * fb, 0.0), b0[2] + k * tb, min(b0[3] + k * fb, MAXF))
     st, sf = 1e-9 * max(1.0, abs(b0[2])), 1e-9 * max(1.0, abs(b0[3]))
     if b1[0] > need[0] + st or b1[1] > need[1] + sf or b1[2] < need[2] - st or b1[3] < need[3] - sf:
@@ -262,7 +264,7 @@ def run(ctx):
                 "buffers from 0 to larger than the domain; non-trivial = at least one buffer > 0; distinct = distinct case spec")
     ctx.assumptions += ["valid, non-self-intersecting input geometries; default shapely buffer options",
                         "buffers in (0, 1e-6) excluded (below the code's degenerate-axis epsilon)",
-                        "round caps are 32-gons: extents may fall 0.5 % of a buffer short; containment judged at 1e-6 buffer units; monotonicity at 0.006 buffer units"]
+                        "round caps are 32-gons and GEOS simplifies buffer input at 1 % of the distance: extents may fall 1.6 % of a buffer short; containment judged at 1e-6 buffer units; monotonicity at 0.006 buffer units"]
     ctx.must_monitors += ["buffer_geometry.post", "buffer.exact", "buffer.contains", "buffer.monotone", "buffer.rejection", "normal_form_walker"]
     ctx.must_reach += ["geometry/operations.py::buffer_geometry", "geometry/operations.py::buffer_shapely_geometry",
                        "geometry/operations.py::buffer_timestamp", "geometry/operations.py::buffer_interval",
